@@ -319,3 +319,50 @@ def refused_prelude(t, nodes, rng, typed):
                 n.add("tmp-child", **kw).remove()
         except Exception:
             pass
+
+
+_EXT = {}
+
+
+def ext_classes():
+    """User extensions that must not matter: node classes (passed as `factory=`) whose instances are falsy when they have no
+    children (`__len__`) and whose `name` differs from `str(data)`; tree subclasses that override the class-level defaults.
+    Returns a dict with XNode, XTypedNode, XTree, XTypedTree."""
+    if _EXT:
+        return _EXT
+    from nutree import Node, Tree
+    from nutree.typed_tree import TypedNode, TypedTree
+
+    class XNode(Node):
+        def __len__(self):
+            return len(self.children)
+
+        @property
+        def name(self):
+            return "\u00ab" + str(self.data) + "\u00bb"
+
+    class XTypedNode(TypedNode):
+        def __len__(self):
+            return len(self.children)
+
+        @property
+        def name(self):
+            return "\u00ab" + str(self.data) + "\u00bb"
+
+    class XTree(Tree):
+        DEFAULT_CONNECTOR_STYLE = "ascii32"
+
+        def __init__(self, name=None, **kw):
+            kw.setdefault("factory", XNode)
+            super().__init__(name, **kw)
+
+    class XTypedTree(TypedTree):
+        DEFAULT_CONNECTOR_STYLE = "ascii32"
+        DEFAULT_CHILD_TYPE = "kid"
+
+        def __init__(self, name=None, **kw):
+            kw.setdefault("factory", XTypedNode)
+            super().__init__(name, **kw)
+
+    _EXT.update(XNode=XNode, XTypedNode=XTypedNode, XTree=XTree, XTypedTree=XTypedTree)
+    return _EXT
